@@ -4,6 +4,7 @@ import (
 	"encoding/json"
 	"fmt"
 	"os"
+	"regexp"
 	"sort"
 	"strings"
 	"testing"
@@ -56,6 +57,22 @@ var cdxExtRef15 = map[sbom.ExternalReference_ExternalReferenceType]string{
 // hash algorithms of the CycloneDX schemas (all twelve exist in 1.4 and 1.5)
 func cdxAlgo(a int32) bool { return a >= 1 && a <= 12 }
 
+// the serialNumber pattern of the CycloneDX schemas (a serial number outside it is not expressible: it may be written
+// as it is, replaced or left out)
+var cdxSerialRe = regexp.MustCompile(`^urn:uuid:[0-9a-f]{8}-[0-9a-f]{4}-[1-5][0-9a-f]{3}-[89ab][0-9a-f]{3}-[0-9a-f]{12}$`)
+
+// the hash-content pattern of the CycloneDX 1.3-1.5 JSON schemas
+var cdxHashContentRe = regexp.MustCompile(`^([a-fA-F0-9]{32}|[a-fA-F0-9]{40}|[a-fA-F0-9]{64}|[a-fA-F0-9]{96}|[a-fA-F0-9]{128})$`)
+
+// hashValue draws mostly schema-valid hash contents, sometimes arbitrary text (which only has to be survived).
+func hashValue(t *rapid.T, label string, other *rapid.Generator[string]) string {
+	if rapid.IntRange(0, 4).Draw(t, label+".junk") == 0 {
+		return other.Draw(t, label)
+	}
+	n := rapid.SampledFrom([]int{32, 40, 64, 96, 128}).Draw(t, label+".len")
+	return rapid.StringOfN(rapid.RuneFrom([]rune("0123456789abcdefABCDEF")), n, n, -1).Draw(t, label+".hex")
+}
+
 // the seven lifecycle phases protobom maps
 var cdxLifecycleTypes = []sbom.DocumentType_SBOMType{sbom.DocumentType_DESIGN, sbom.DocumentType_SOURCE, sbom.DocumentType_BUILD,
 	sbom.DocumentType_ANALYZED, sbom.DocumentType_DEPLOYED, sbom.DocumentType_DISCOVERY, sbom.DocumentType_DECOMISSION}
@@ -98,7 +115,7 @@ func genCDXNode(t *rapid.T, id string) *sbom.Node {
 		if n.Hashes == nil {
 			n.Hashes = map[int32]string{}
 		}
-		n.Hashes[int32(rapid.IntRange(0, 17).Draw(t, "algo"))] = tx.Draw(t, "hv")
+		n.Hashes[int32(rapid.IntRange(0, 17).Draw(t, "algo"))] = hashValue(t, "hv", tx)
 	}
 	if rapid.Bool().Draw(t, "haspurl") {
 		n.Identifiers = map[int32]string{1: hx.TextPlainNE().Draw(t, "purl")}
@@ -119,7 +136,7 @@ func genCDXNode(t *rapid.T, id string) *sbom.Node {
 			if er.Hashes == nil {
 				er.Hashes = map[int32]string{}
 			}
-			er.Hashes[int32(rapid.IntRange(0, 17).Draw(t, "eralgo"))] = tx.Draw(t, "erhv")
+			er.Hashes[int32(rapid.IntRange(0, 17).Draw(t, "eralgo"))] = hashValue(t, "erhv", tx)
 		}
 		n.ExternalReferences = append(n.ExternalReferences, er)
 	}
@@ -214,7 +231,12 @@ func genCDXDoc(t *rapid.T) cdxCase {
 	}
 	merge := rapid.Bool().Draw(t, "merge")
 	doc := buildTreeDoc(nodes, parents, order, merge, hx.Permute(t, "nperm", identityPerm(len(ids))))
-	doc.Metadata.Id = hx.TextPlain().Draw(t, "serial")
+	// the serial number: mostly what the schema admits (an RFC 4122 URN), sometimes arbitrary text or none
+	if rapid.IntRange(0, 3).Draw(t, "serialkind") > 0 {
+		doc.Metadata.Id = "urn:uuid:" + rapid.StringMatching(`[0-9a-f]{8}-[0-9a-f]{4}-[1-5][0-9a-f]{3}-[89ab][0-9a-f]{3}-[0-9a-f]{12}`).Draw(t, "uuid")
+	} else {
+		doc.Metadata.Id = hx.TextPlain().Draw(t, "serial")
+	}
 	doc.Metadata.Version = fmt.Sprintf("%d", rapid.IntRange(0, 100000).Draw(t, "ver"))
 	// Metadata.Name replaces the root component's name on output (known finding KF-03): keep them equal
 	if rapid.Bool().Draw(t, "docname") {
@@ -238,7 +260,9 @@ func genCDXDoc(t *rapid.T) cdxCase {
 func cdxHashes(m map[int32]string) string {
 	hs := []string{}
 	for a, v := range m {
-		if cdxAlgo(a) && v != "" { // a hash without content is not expressible (the schema requires the value)
+		// expressible = what the CycloneDX schemas admit as hash content (hex of one of five lengths): a value outside
+		// that pattern (empty, arbitrary text) may be written, dropped or refused
+		if cdxAlgo(a) && cdxHashContentRe.MatchString(v) {
 			hs = append(hs, fmt.Sprintf("%d=%s", a, v))
 		}
 	}
@@ -383,7 +407,7 @@ func lifecycleKey(dts []*sbom.DocumentType) string {
 			ks = append(ks, fmt.Sprintf("N:%q D:%q", dt.GetName(), dt.GetDescription()))
 		}
 	}
-	return joinSorted(ks)
+	return joinSorted(dedupe(ks)) // which lifecycle types the document has (how often one is listed is not stated)
 }
 
 func cdxRoundTripCheck(c cdxCase) error {
@@ -396,7 +420,7 @@ func cdxRoundTripCheck(c cdxCase) error {
 		return fmt.Errorf("CycloneDX %s write-then-read (depth %d, edge layout %s): %v\n doc: %s\n out: %s", c.Format.Version(), c.Depth, c.Layout, err, hx.RefKeyOrdered(c.Doc, ""), trunc(string(out), 2500))
 	}
 	// (a document without serial number may be given one by the writer)
-	if (c.Doc.Metadata.Id != "" && d2.Metadata.GetId() != c.Doc.Metadata.Id) || d2.Metadata.GetVersion() != c.Doc.Metadata.Version {
+	if (cdxSerialRe.MatchString(c.Doc.Metadata.Id) && d2.Metadata.GetId() != c.Doc.Metadata.Id) || d2.Metadata.GetVersion() != c.Doc.Metadata.Version {
 		return fmt.Errorf("serial number / version not preserved: got (%q,%q) want (%q,%q)", d2.Metadata.GetId(), d2.Metadata.GetVersion(), c.Doc.Metadata.Id, c.Doc.Metadata.Version)
 	}
 	if v15 && lifecycleKey(d2.Metadata.DocumentTypes) != lifecycleKey(c.Doc.Metadata.DocumentTypes) {
@@ -467,7 +491,7 @@ func (e c02Enum) toCase() cdxCase {
 		}
 	}
 	doc := buildTreeDoc(nodes, e.Parents, e.Order, e.Merge, no)
-	doc.Metadata.Id, doc.Metadata.Version = "urn:uuid:1", "3"
+	doc.Metadata.Id, doc.Metadata.Version = "urn:uuid:3e671687-395b-41f5-a30f-a58921a69b79", "3"
 	f := formats.CDX14JSON
 	if e.V15 {
 		f = formats.CDX15JSON
@@ -579,7 +603,7 @@ func TestC02Replay(t *testing.T) {
 // KF-01: the CycloneDX parser keeps only the first licence of a component.
 func kf01Witness() bool {
 	doc := sbom.NewDocument()
-	doc.Metadata.Id = "urn:uuid:1"
+	doc.Metadata.Id = "urn:uuid:3e671687-395b-41f5-a30f-a58921a69b79"
 	doc.NodeList.AddRootNode(&sbom.Node{Id: "a", Name: "a", Licenses: []string{"MIT", "Apache-2.0"}})
 	d2, _, err := roundTrip(doc, formats.CDX15JSON, 2)
 	if err != nil || len(d2.NodeList.Nodes) != 1 {
@@ -591,7 +615,7 @@ func kf01Witness() bool {
 // KF-03: the root component's name is replaced by Metadata.Name on CycloneDX output.
 func kf03Witness() bool {
 	doc := sbom.NewDocument()
-	doc.Metadata.Id = "urn:uuid:1"
+	doc.Metadata.Id = "urn:uuid:3e671687-395b-41f5-a30f-a58921a69b79"
 	doc.Metadata.Name = "the document"
 	doc.NodeList.AddRootNode(&sbom.Node{Id: "a", Name: "the root"})
 	d2, _, err := roundTrip(doc, formats.CDX15JSON, 2)
